@@ -5,13 +5,19 @@ package http
 // dispatched body; undecodable receiver data is a failed hand-off that sends nothing.
 
 import (
-	"net/http"
-
+	"github.com/prometheus/client_golang/prometheus"
+	"github.com/resonatehq/resonate/internal/metrics"
 	"github.com/resonatehq/resonate/internal/vx"
 )
 
 func VH_PL_HttpProcess() {
-	w := &HttpWorker{client: &http.Client{}}
+	// the worker is the one the real constructor builds (its client, its time bound)
+	h, herr := New(nil, metrics.New(prometheus.NewRegistry()), &Config{Size: 1, Workers: 1, Timeout: vx.DurationMs("config.timeout", 1, 1<<32)})
+	vx.Assert(herr == nil && h != nil && len(h.workers) == 1 && h.workers[0] != nil && h.workers[0].client != nil, "C08:http-plugin-constructs-its-worker")
+	if herr != nil || h == nil || len(h.workers) != 1 || h.workers[0] == nil || h.workers[0].client == nil {
+		return
+	}
+	w := h.workers[0]
 	data, body := vx.Bytes("data"), vx.Bytes("body")
 	ok, err := w.Process(data, body)
 	vx.Assert(!(ok && err != nil), "C08:http-success-and-error-exclude-each-other")
@@ -21,6 +27,8 @@ func VH_PL_HttpProcess() {
 		return
 	}
 	vx.Assert(vx.HttpSent() == 1, "C08:http-message-posted-at-most-once")
+	// the attempt ends: a receiver that accepts the connection and never answers costs a bounded time, not the dispatch cycle
+	vx.Assert(vx.HttpSentTimeout(0) > 0, "C11:http-hand-off-attempt-is-bounded-in-time")
 	vx.Assert(vx.JsonDecodes(data, (*Data)(nil)), "C19:http-undecodable-receiver-sends-nothing")
 	vx.Assert(vx.And(vx.HttpSentMethod(0) == "POST", vx.HttpSentURL(0) == vx.JsonStringField(data, (*Data)(nil), "Url")), "C19:http-posted-to-the-configured-url")
 	vx.Assert(vx.BytesEq(vx.HttpSentBody(0), body), "C20:http-body-dispatched-verbatim")
